@@ -3,7 +3,9 @@ import StraxModel.Model.Mailbox
 /-
   Driver ops of the mailbox transition system (shared by C05 / C06 / C13).
 
-  `c05.run <cap> <lazy> <drive> <prog> <workers> <kills> <schedule>`
+  `c05.run <rule> <cap> <lazy> <drive> <prog> <workers> <kills> <schedule>`
+     rule     `L` (stale-waiter test of `_can_fetch` compares with the lowest number: the code today) |
+              `H` (uses `_has_msg`: candidate fix of D6); the harness reads it off the source of `_can_fetch`
      cap      `inf` | n
      lazy     0 | 1
      drive    one 0/1 character per subscriber, e.g. `10`
@@ -47,14 +49,15 @@ def parseThread (s : String) : Option ThreadId :=
   else if s.startsWith "K" then (s.drop 1).toString.toNat?.map .killer
   else none
 
-def parseMbConfig (cap lazy drive prog workers kills : String) : Option Config := do
+def parseMbConfig (rule cap lazy drive prog workers kills : String) : Option Config := do
+  let rule ← if rule == "L" then some GateRule.lowest else if rule == "H" then some GateRule.hasMsg else none
   let cap ← if cap == "inf" then some none else cap.toNat?.map some
   let lazy ← parseBool lazy
   let drive ← parseBits drive '1' '0'
   let prog ← (splitList prog ",").mapM parseSrcItem
   let workers ← parseWorkers workers
   let kills ← parseBits kills 'u' 'd'
-  pure ⟨cap, lazy, drive, prog, workers, kills⟩
+  pure ⟨cap, lazy, rule, drive, prog, workers, kills⟩
 
 def showThread : ThreadId → String
   | .sender => "S"
@@ -68,8 +71,8 @@ def b01 (b : Bool) : String := if b then "1" else "0"
 
 def showSnap (s : Sys) : String :=
   let heap := (s.mb.heap.map (·.1)).mergeSort (· ≤ ·)
-  let hr := s.mb.next.map fun (n : Nat) => toString (Int.ofNat n - 1)
-  let wf := s.mb.waitingFor.map fun w => match w with
+  let hr := s.mb.subs.map fun sub => toString (Int.ofNat sub.next - 1)
+  let wf := s.mb.subs.map fun sub => match sub.waitingFor with
     | none => "n"
     | some x => toString x
   s!"{dotted (heap.map toString)}|{dotted hr}|{dotted wf}|{b01 s.mb.closed}{b01 s.mb.killed}{b01 s.mb.forceKilled}|{s.mb.nSent}|{dotted (s.enabled.map showThread)}"
@@ -80,18 +83,24 @@ def showSPc : SPc → String
   | _ => "run"
 
 def showRPc : RPc → String
-  | .done => "done"
+  | .done _ => "done"
   | .dead e => s!"dead({e.name})"
   | _ => "run"
 
 def showPcs (s : Sys) : String :=
-  let rs := (List.range s.rpc.length).zip s.rpc |>.map fun (i, p) => s!"R{i}:{showRPc p}"
+  let rs := (List.range s.readers.length).zip s.readers |>.map fun (i, r) => s!"R{i}:{showRPc r.pc}"
   let ws := (List.range s.workers.length).zip s.workers |>.map fun (j, w) => s!"W{j}:{if w.isEmpty then "done" else "run"}"
   let ks := (List.range s.killers.length).zip s.killers |>.map fun (k, w) => s!"K{k}:{if w.isNone then "done" else "run"}"
   ",".intercalate ([s!"S:{showSPc s.spc}"] ++ rs ++ ws ++ ks)
 
+/-- the value the consumer sees (a future is replaced by its result; the end marker is never delivered) -/
+def msgValue : Msg → String
+  | .plain v => toString v
+  | .fut _ v => toString v
+  | .stop => "STOP"
+
 def showGot (s : Sys) : String :=
-  if s.got.isEmpty then "-" else "/".intercalate (s.got.map fun g => dotted (g.map toString))
+  if s.readers.isEmpty then "-" else "/".intercalate (s.readers.map fun r => dotted (r.got.map msgValue))
 
 /-- run the schedule, collecting one snapshot per visited state -/
 def runTrace (s : Sys) (acc : List String) (k : Nat) : List ThreadId → Sys × List String × Option Nat
@@ -111,8 +120,8 @@ def mbRun (c : Config) (sched : List ThreadId) : String :=
 
 /-- ops of property C05 (and the shared mailbox model) -/
 def handleC05 : List String → Option String
-  | ["c05.run", cap, lazy, drive, prog, workers, kills, sched] => do
-    let c ← parseMbConfig cap lazy drive prog workers kills
+  | ["c05.run", rule, cap, lazy, drive, prog, workers, kills, sched] => do
+    let c ← parseMbConfig rule cap lazy drive prog workers kills
     let sched ← (splitList sched ",").mapM parseThread
     pure (mbRun c sched)
   | _ => none
